@@ -34,6 +34,20 @@ CHECKS = {
             'Trusted: mc/refs/relmodel.py (reference semantics). Bounds: instances ever created per class capped (2 quick, '
             '3-4 thorough); closure under the cap. Canonical form renames instances per class in creation order.',
             'DESIGN.md section 5, C02'),
+    'C09': ('explorer',
+            'explicit-state BFS to closure over real metamodels; the whole query/navigation menu is evaluated in every state against the relational reference',
+            'The state space of C02 restricted to accepted operations, enlarged with attribute values (ties in one, both '
+            'and no ordering attribute) and with loader-built seed states that over-populate single-valued ends, is '
+            'searched to closure for nine association shapes. In every state every select_many/select_one/select_any with '
+            'every sequence of up to 2 (quick) / 3 (thorough) operators (where_eq on one/two/referential attributes, dict '
+            'filters, lambdas, order_by / reverse_order_by on one/two attributes) and every type-correct navigation chain '
+            'of length up to 3 / 4 (direct, reflexive with each phrase, two-hop through association classes) from None, an '
+            'instance, a QuerySet, a list, a generator, with and without closing filters/orderings, in nav(), K[n, phrase] '
+            'and lower-case/R<n> spellings, is evaluated on the real metamodel and compared with the reference (content, '
+            'order, result type, first-element forms, subtype navigation).',
+            'Trusted: mc/refs/relmodel.py. Stable descending order (ties keep incoming order) is what the statement defines. '
+            'Subtype navigation with two related subtype instances is only required to return one of them.',
+            'DESIGN.md section 5, C09'),
 }
 
 NOT_YET = 'check not built yet in this revision (planned, see DESIGN.md section 5); not claimed until it exists'
